@@ -77,15 +77,18 @@ func (d *ptrDecoder) Decode(ctx *RuntimeContext, cursor, depth int64, p unsafe.P
 		return cursor, nil
 	}
 	var newptr unsafe.Pointer
-	if *(*unsafe.Pointer)(p) == nil {
+	oldptr := *(*unsafe.Pointer)(p)
+	if oldptr == nil {
 		newptr = unsafe_New(d.typ)
 		*(*unsafe.Pointer)(p) = newptr
 	} else {
-		newptr = *(*unsafe.Pointer)(p)
+		newptr = oldptr
 	}
 	c, err := d.dec.Decode(ctx, cursor, depth, newptr)
 	if err != nil {
-		*(*unsafe.Pointer)(p) = nil
+		// a pointer that was set before the call stays set (as in stream mode and in encoding/json);
+		// only the object allocated here is dropped again
+		*(*unsafe.Pointer)(p) = oldptr
 		return 0, err
 	}
 	cursor = c
